@@ -6,11 +6,11 @@ from ..oracles import cmark, htmlnorm, rules_ref
 from ..runner import Run
 from .c07 import CRASH_RE
 
-PLAN = {"B2/53": 900, "B3/89": 500, "B4/83": 250, "N1/11": 1200, "W1/2": 1000, "S2": 700, "S3": 150, "I4/97": 250, "H4": 1200}
+PLAN = {"B2/53": 900, "B3/89": 500, "B4/83": 250, "N1/11": 1200, "W1/2": 1000, "S2": 700, "S3": 150, "I4/97": 250, "H4": 1200, "P2": 900}
 EVALUATOR = "vp.props.c06:ev"
 RULE = (
     "documents = sub-lattices of the bounded universes on which C03's oracle holds (the independent parser agrees on the block structure), without pragmas / front matter / CR; "
-    "rules with a crisp documented trigger: md001 md004 md009 md010 md013 md019 md023 md024 md025 md026 md035 md040 md041 md042 md045 md046 md047 md048, each under its default configuration (one scan with exactly these "
+    "rules with a crisp documented trigger: md001 md004 md009 md010 md013 md018 md019 md022 md023 md024 md025 md026 md029 md030 md031 md032 md035 md040 md041 md042 md045 md046 md047 md048, each under its default configuration (one scan with exactly these "
     "rules enabled) and under the documented configuration values listed in oracles/rules_ref.py::REFS (rule alone, values via --set), variant scans only when the rule's construct occurs in the document; "
     "oracle: per rule an independent statement of the documented trigger over (source lines, markdown-it-py block view) giving MUST and MUST-NOT line sets (everything else = documentation silent, not judged); "
     "failure = a MUST line without a report of that rule (missed) or a report on a MUST-NOT line (spurious); only (line, rule id) is compared; non-trivial = a non-empty MUST set or a report; distinct by (source hash, rule, configuration)"
@@ -121,7 +121,7 @@ def main(tier, seed):
     return run.finish(RULE, assumptions=[
         "the references encode a conservative two-sided reading of newdocs/src/plugins/rule_md*.md: lines the documentation does not clearly decide are in neither set",
         "block structure comes from the vendored markdown-it-py (line maps), established per document by C03's oracle",
-        "rules without a crisp, parser-independent documented trigger (md003 md005 md007 md012 md014 md018 md020-22 md027-34 md036-39 md043 md044) are not judged here"])
+        "rules without a crisp, parser-independent documented trigger (md003 md005 md007 md012 md014 md020 md021 md027 md028 md033 md034 md036-39 md043 md044) are not judged here"])
 
 
 def replay(case):
